@@ -888,18 +888,23 @@ class Executor:
         loop_id = n["id"]
         lid_names = self.assigned_locals({"k": "Block", "block": body, "id": -1})
         body_st = State(dict(st.env), [], dict(st.fields), dict(st.facts))
+        init = {}
+        lv = {}
         for lid, name in lid_names:
             if lid in body_st.env:
-                body_st.env[lid] = ("sym", next(self.counter), "loopvar:" + name)
+                sym = ("sym", next(self.counter), "loopvar:" + name)
+                init[sym] = st.env[lid]
+                lv[lid] = sym
+                body_st.env[lid] = sym
         res = self.ev_block(body, body_st)
         paths, exits = [], []
         for s, o in res:
-            p = {"eff": s.eff, "out": o}
+            p = {"eff": s.eff, "out": o, "next": {sym: s.env.get(lid) for lid, sym in lv.items()}}
             if o[0] in ("val", "cont") or (o[0] == "brk" and o[1] == loop_id):
                 paths.append(p)
             else:
                 exits.append(p)
-        e = self.effect(st, "loop", (), node=n, loop=loop_id, src=src, paths=paths, exits=exits)
+        e = self.effect(st, "loop", (), node=n, loop=loop_id, src=src, paths=paths, exits=exits, init=init)
         for lid, name in lid_names:
             if lid in st.env:
                 st.env[lid] = ("sym", next(self.counter), "after_loop:" + name)
